@@ -107,8 +107,8 @@ static __thread bool in_tracker = false;
 struct TrackerScope { bool prev; TrackerScope() : prev(in_tracker) { in_tracker = true; } ~TrackerScope() { in_tracker = prev; } };
 // memory with a name of its own (libc static buffers)
 struct Labelled { uintptr_t lo, hi; const char * label; };
-static Labelled labelled[16]; static int nlabelled = 0;
-static void label_range(const void * p, size_t n, const char * label) { uintptr_t a = (uintptr_t)p; for (int i = 0; i < nlabelled; i++) if (labelled[i].lo == a) return; if (nlabelled < 16) labelled[nlabelled++] = Labelled{a, a + n, label}; }
+static Labelled labelled[64]; static int nlabelled = 0;
+static void label_range(const void * p, size_t n, const char * label) { uintptr_t a = (uintptr_t)p; for (int i = 0; i < nlabelled; i++) if (labelled[i].lo == a) return; if (nlabelled < 64) labelled[nlabelled++] = Labelled{a, a + n, label}; }
 static inline size_t hidx(uintptr_t g) { uint64_t x = g * 0x9e3779b97f4a7c15ULL; return (size_t)(x >> 43) & (NCELL - 1); }
 static Cell * cell_find(uintptr_t g, bool insert) {
 	size_t i = hidx(g);
@@ -396,6 +396,33 @@ extern "C" {
 	HIDDEN_STATE(int, unsetenv, (const char * n), (n), "libc:environment", true)
 	HIDDEN_STATE(int, putenv, (char * str), (str), "libc:environment", true)
 	HIDDEN_STATE(char *, tmpnam, (char * buf), (buf), "libc:tmpnam_static_buffer", true)
+	HIDDEN_STATE(int, chdir, (const char * path), (path), "libc:working_directory", true)
+	HIDDEN_STATE(char *, getcwd, (char * buf, size_t n), (buf, n), "libc:working_directory", false)
+	// the file system is shared by all threads too: a file opened for writing is a write to a location named by its path, a file opened for
+	// reading a read of it - two conversions that go through a temporary file with a fixed name race on it
+	static char fs_pseudo[32][8]; static char fs_names[32][96]; static int fs_n = 0;
+	static void fs_access(const char * path, const char * mode, uintptr_t pc) {
+		if (!(g_thr.enabled && g_thr.current >= 0) || !path || !mode) return;
+		char name[96]; snprintf(name, sizeof name, "file:%s", path);
+		int i = 0; for (; i < fs_n; i++) if (strcmp(fs_names[i], name) == 0) break;
+		if (i == fs_n) { if (fs_n == 32) return; strcpy(fs_names[fs_n++], name); }
+		bool wr = mode[0] == 'w' || mode[0] == 'a' || strchr(mode, '+') != nullptr;
+		thr_yield_point(pc, "fopen");
+		label_range(fs_pseudo[i], 8, fs_names[i]);
+		thr_range(fs_pseudo[i], 8, wr, pc);
+	}
+	FILE * fopen(const char * path, const char * mode) {
+		static FILE * (*real)(const char *, const char *) = nullptr;
+		if (!real) real = (FILE * (*)(const char *, const char *))dlsym(RTLD_NEXT, "fopen");
+		fs_access(path, mode, PC);
+		return real(path, mode);
+	}
+	FILE * fopen64(const char * path, const char * mode) {
+		static FILE * (*real)(const char *, const char *) = nullptr;
+		if (!real) real = (FILE * (*)(const char *, const char *))dlsym(RTLD_NEXT, "fopen64");
+		fs_access(path, mode, PC);
+		return real(path, mode);
+	}
 	char * setlocale(int cat, const char * loc) {
 		static char * (*real)(int, const char *) = nullptr;
 		if (!real) real = (char * (*)(int, const char *))dlsym(RTLD_NEXT, "setlocale");
